@@ -339,10 +339,14 @@ class McOutcome:
 
 
 def model_check(mc, runs, parallel=1):
-    """runs: list of dict(module=, cfg=, workers=, expect='pass'|'violation', env=..).  Accumulates into mc."""
-    for j in runs:
-        expect = j.pop("expect", "pass")
-        r = tlc(**j)
+    """runs: list of dict(module=, cfg=, workers=, expect='pass'|'violation', env=..).  Accumulates into mc.
+    parallel > 1: the TLC processes run concurrently (use a small `workers` each)."""
+    expects = [j.pop("expect", "pass") for j in runs]
+    if parallel > 1:
+        results = tlc_many(runs, parallel)
+    else:
+        results = [tlc(**j) for j in runs]
+    for j, expect, r in zip(runs, expects, results):
         mc.states += r.distinct
         mc.transitions += r.generated
         ok = r.finished_ok
@@ -362,6 +366,33 @@ def model_check(mc, runs, parallel=1):
         if expect == "violation" and not viol:
             log(r.stdout[-2000:])
             raise ToolError("broken-model config %s did not produce a counterexample (vacuity guard)" % r.name)
+    return mc
+
+
+def apalache(mc, spec_dir, module, steps, timeout=1200):
+    """Apalache (symbolic) runs for an inductive-invariant argument. steps: list of (label, args)."""
+    import tempfile
+    for label, args in steps:
+        out = tempfile.mkdtemp(prefix="apalache_", dir=WORK)
+        cmd = ["apalache-mc", "check", "--out-dir=" + out] + args + [module]
+        t0 = time.time()
+        try:
+            p = subprocess.run(cmd, cwd=spec_dir, stdout=subprocess.PIPE, stderr=subprocess.STDOUT, text=True, timeout=timeout)
+        except subprocess.TimeoutExpired:
+            shutil.rmtree(out, ignore_errors=True)
+            raise ToolError("apalache timed out on %s" % label)
+        shutil.rmtree(out, ignore_errors=True)
+        ok = "EXITCODE: OK" in p.stdout
+        viol = "The outcome is: Error" in p.stdout or "violat" in p.stdout.lower()
+        mc.runs.append({"spec": module, "cfg": "apalache " + label, "distinct_states": 0, "states_generated": 0,
+                        "wall_s": round(time.time() - t0, 1), "expect": "pass", "result": "pass" if ok else ("violation" if viol else "error")})
+        log("[apalache] %s %s: %s (%.1fs)" % (module, label, mc.runs[-1]["result"], time.time() - t0))
+        if not ok:
+            if viol:
+                mc.failed.append((module + ":" + label, "inductive-invariant obligation refuted by Apalache", p.stdout[-3000:]))
+            else:
+                log(p.stdout[-2000:])
+                raise ToolError("apalache failed on %s" % label)
     return mc
 
 
